@@ -16,7 +16,11 @@ r = sh("git apply %s/patch.diff" % D, cwd=WT)
 if r.returncode != 0:
     print("patch does not apply:", r.stdout); sys.exit(3)
 os.makedirs(ALT, exist_ok=True)
-sh("rsync -a --delete --exclude .git --exclude .cache/target --exclude .cache/target-repo --exclude .cache/work --exclude replay /verif/ %s/" % ALT)
+# committed state of /verif only (others may be mid-edit in the working tree); keep ALT's build products
+EXP = "/tmp/verif_export"
+sh("rm -rf %s; mkdir -p %s; git -C /verif archive HEAD | tar -x -C %s" % (EXP, EXP, EXP))
+sh("rsync -rc --delete --exclude .cache --exclude replay --exclude '*.vo' --exclude '*.vos' --exclude '*.vok' --exclude '*.glob' --exclude '*.aux' "
+   "--exclude 'coq/Makefile*' --exclude 'coq/.Makefile.d' --exclude 'coq/.mk.sha' --exclude 'coq/Gen' --exclude 'coq/.lia.cache' --exclude Cargo.lock %s/ %s/" % (EXP, ALT))
 sh("sed -i 's#/repo/#%s/#g' %s/harness/g_*/Cargo.toml" % (WT, ALT))
 res = {"seed": ID, "base": sh("git -C /repo rev-parse HEAD").stdout.strip(), "verif": sh("git -C /verif rev-parse HEAD").stdout.strip(), "checks": {}}
 env = dict(os.environ, VERIF_REPO=WT, CARGO_NET_OFFLINE="true")
